@@ -344,3 +344,4 @@ def run(ck):
               "%s:%s" % (its.file, (its.blocks[bid_].term or {}).get("l")), its,
               "the arm's text comes from inet_ntop" if not loose_ else
               "this arm of IP::toString produces the text without inet_ntop: a second, hand-written rendering of the address")
+    lib.no_stale_static_rule(ck, "C19-R4", ('net.cc',), "the address and port parsers")
